@@ -13,6 +13,12 @@ R2 gather sorts by tag (every `GatherStep._gather`): the emitted ListToken's val
 R3 scatter indexing (every `ScatterStep._scatter`): element tag is `<token.tag>.<i>` with `i` the
    zero-based `enumerate` index over `token.value`; exactly one size token with value `len(token.value)`
    and tag `token.tag`, outside the loop; elements go to the output port, the size to the size port.
+   Emission is unconditional (must-pass-through on the CFG): no normal completion of `_scatter` (return / fall
+   off the end; the `raise` for a non-list is not one) avoids the size put, so the empty list still announces
+   its length 0 -- otherwise the gather never hears of that tag and the list is lost (a nested empty list
+   vanishes from the outer one); no path through the loop body ends an iteration (continue / break / return)
+   before the element put; and every call site of `_scatter` (found through the call index) awaits it and lies
+   on every path from the `<port>.get()` that produced the token back to that read (no token read and dropped).
 R4 gather firing (`GatherStep.run`): element key = tag minus the last `self.depth` components; the
    two arrival branches (size arrives / element arrives) both record what arrived, test
    `len(token_map[key]) == size` with equality, call `_gather(key)` and mark the key completed; every
@@ -21,7 +27,8 @@ R4 gather firing (`GatherStep.run`): element key = tag minus the last `self.dept
    unless the status is FAILED, after the size entry was refreshed.
 
 All four rules of DESIGN.md section 3 (C01) are implemented.  Additions seen while reading the code:
-un-awaited `_persist_token` / `_gather` coroutines (R2-R4), `enumerate` start and iterable (R3), pairing of
+un-awaited `_persist_token` / `_gather` / `_scatter` coroutines (R2-R4), `enumerate` start and iterable (R3),
+paths that skip the size token / an element / the `_scatter` call (R3, seeded change C01-3), pairing of
 task names with ports for the initial tasks (R4), polarity of the completed-keys filter and refresh of
 `size_map[key]` before the forced gather (R4).  The "unless FAILED" guard of the forced gather is listed
 by DESIGN under R4; it concerns failing runs, which C01's quantifier does not include, and is kept because
@@ -43,6 +50,7 @@ from ..selftest import V
 from ._util_A import (
     branch_succ,
     builtin_call,
+    calls_named,
     test_compares,
     const_value,
     fire_edge,
@@ -566,11 +574,11 @@ def r2(ctx):
 
 def _skip_node(g, w):
     """The construct that decides a witness path `w` which avoids an emission: the last jump
-    (return / continue / break) on it, else the last branch test, else None."""
-    for kinds in (("return", "continue", "break"), ("test",)):
+    (return / continue / break) on it, else the last two-way branch (test / loop head), else None."""
+    for kinds in (("return", "continue", "break"), ("test", "iter")):
         for i in reversed(w or []):
             n = g.nodes[i]
-            if n.kind in kinds and n.ast is not None:
+            if n.kind in kinds and n.ast is not None and (n.kind not in ("test", "iter") or len([b for b, k in g.succ[i] if k in NORMAL]) > 1):
                 return n
     return None
 
@@ -612,15 +620,15 @@ def _scatter_callers(ctx, impls):
     read and dropped, e.g. `if token.value: await self._scatter(token)`, never gets its size token)."""
     p = ctx.prog
     sites = []
-    for f in impls:
-        for cf, call in p.callers(f.qualname):
-            if all(call is not c for _f, c in sites):
-                sites.append((cf, call))
+    quals = {f.qualname for f in impls}
+    for cf, call in calls_named(p, "_scatter"):  # per-module cached index (cheap for the variant programs)
+        if quals & set(p.resolve_call(cf, call)):
+            sites.append((cf, call))
     ctx.require(bool(sites), "C01.R3: no call of ScatterStep._scatter found (renamed / inlined?): shape not supported")
     for cf, call in sites:
         who = ".".join(cf.qualname.rsplit(".", 2)[-2:])
         g = cf.cfg
-        ctx.ob("R3", f"{who}: `_scatter(...)` is awaited", awaited(call), func=cf, node=call, instance=f"{who}:scatter-awaited",
+        ctx.ob("R3", f"{who}: `_scatter(...)` is awaited", _awaited_on_every_path(cf, call), func=cf, node=call, instance=f"{who}:scatter-awaited",
                message="`self._scatter(...)` is not awaited: the coroutine is created and dropped, neither elements nor size token are emitted")
         arg = kwarg(call, "token", 0)
         cn = g.node_containing(call)
@@ -1077,7 +1085,7 @@ def r4(ctx):
 
 
 RULES = [("R1", r1), ("R2", r2), ("R3", r3), ("R4", r4)]
-FLOORS = {"R1": 5, "R2": 4, "R3": 4, "R4": 14}
+FLOORS = {"R1": 5, "R2": 4, "R3": 7, "R4": 14}
 
 _G = f"{GATHER}._gather"
 _S = f"{SCATTER}._scatter"
